@@ -27,7 +27,12 @@ def run_scenarios(lines, seed, iters, strategy="mixed", jobs=16, timeout=3000):
             return ["%s | seed=0 n=0 strat=%s | out=timeout  | " % (c.split()[1], strategy) for c in chunk]
     with cf.ThreadPoolExecutor(max_workers=jobs) as ex:
         res = list(ex.map(work, chunks))
-    return [l for r in res for l in r if l.strip()]
+    out = [l for r in res for l in r if l.strip()]
+    bad = [l for l in out if "PARSE-ERROR" in l]
+    if bad:
+        # a scenario the harness cannot read would silently explore nothing: that is a mistake in the generator
+        raise RuntimeError("the concurrent harness could not parse a generated scenario: " + bad[0][:400])
+    return out
 
 
 def cosim(model, lines, jobs=8):
@@ -1452,6 +1457,22 @@ def run_conc(prop, tier, seed, jobs, write_evidence, write_replay, load_known):
     return 1 if violations else 0
 
 
+def scen_reentrant_threads(rng, n):
+    """C07: callbacks that re-enter the library ON A WORKER THREAD: the subscriber of a scheduler / timer operator pushes
+    into (or completes, or unsubscribes from) the hot subject that feeds that operator; the callback runs on the
+    operator's own thread, which must not hold any of the operator's locks while it calls downstream"""
+    out = []
+    i = 0
+    ops = ["(debounce 10 (ref a))", "(sample (ref a) (interval 10))", "(delay 4 (ref a))", "(timeout 50 (ref a))", "(observe_on (ref a))",
+           "(observe_on (map inc (ref a)))", "(subscribe_on (ref a))", "(observe_on (scan add (ref a)))", "(take 3 (debounce 10 (ref a)))",
+           "(merge (interval 10) (observe_on (ref a)))", "(zip (observe_on (ref a)) (interval 7))", "(take_until (observe_on (ref a)) (timer 60))"]
+    reacts = ["(0 (hnext a 9))", "(0 (hnext a 9)) (1 (hnext a 8))", "(1 (hcomplete a))", "(0 unsub)", "(1 (herror a 6))"]
+    for op in ops:
+        for r in reacts:
+            out.append("(conc C07-wre-%d (pipe (subject a plain) (sub %s (react %s)) (drive a (3 (n 1)) (30 (n 2)) (30 (n 3))) (unsub-after 0 150)))" % (i, op, r)); i += 1
+    return out
+
+
 def lockorder_supplement(tier, seed, jobs):
     """C07, cross-thread part: every scenario family of the concurrent checks is executed under seeded schedules;
     per execution the harness derives the lock-order relation (lock held -> lock acquired, lock instances) and a rank
@@ -1462,7 +1483,7 @@ def lockorder_supplement(tier, seed, jobs):
     rng = random.Random(seed * 7919 + 7)
     thorough = tier == "thorough"
     scen = []
-    for f in (scen_obs, scen_tovec, scen_queue, scen_handoff, scen_merge, scen_threads, scen_ties, scen_time, scen_subjects, scen_race):
+    for f in (scen_obs, scen_tovec, scen_queue, scen_handoff, scen_merge, scen_threads, scen_ties, scen_time, scen_subjects, scen_race, scen_reentrant_threads):
         for x in f(rng, 20 if thorough else 4):
             scen.append(x[0] if isinstance(x, tuple) else x)
     scen = [re.sub(r"^\(conc (\S+)", lambda m: "(conc C07-%d-%s" % (i, m.group(1)), s_) for i, s_ in enumerate(scen)]
@@ -1517,9 +1538,9 @@ def scen_release(rng, n):
             out.append("(conc C17-rel-%d (pipe (sub %s (react (0 (sleep 20)))) (unsub-after 0 5)))" % (i, p)); i += 1
             out.append("(conc C17-rel-%d (pipe (sub (take 1 %s) (react (0 (sleep 20))))))" % (i, p)); i += 1
             out.append("(conc C17-rel-%d (pipe (sub %s (react (0 (sleep 20))))))" % (i, p)); i += 1
-            out.append("(conc C17-rel-%d (pipe (sub %s (react (1 (unsub))))))" % (i, p)); i += 1
+            out.append("(conc C17-rel-%d (pipe (sub %s (react (1 unsub)))))" % (i, p)); i += 1
     for mk in ("(interval 10)", "(timer 15)", "(sample (tsrc 0 (3 (n 1)) (3 (n 2)) (25 (n 3))) (interval 10))", "(merge (interval 10) (observe_on (from_iter 1 2 3)))",
-               "(flat_map (fm_const (observe_on (from_iter 7 8))) (from_iter 1 2))", "(zip (observe_on (from_iter 1 2 3)) (interval 5))"):
+               "(flat_map fm_two (observe_on (from_iter 1 2)))", "(zip (observe_on (from_iter 1 2 3)) (interval 5))"):
         out.append("(conc C17-rel-%d (pipe (sub %s (react (0 (sleep 12)))) (unsub-after 0 14)))" % (i, mk)); i += 1
         out.append("(conc C17-rel-%d (pipe (sub (take 2 %s) (react))))" % (i, mk)); i += 1
     return out
